@@ -9,6 +9,7 @@
 //	srcinfo lines      SrcLines cases on stdin; checks the driver's reference line table against them
 //	srcinfo skeleton   (development) tokenises featgen files / the extras file into LayoutSkel.tla form
 //	srcinfo show       renders the Layout cases on stdin (debugging, replay)
+//	srcinfo parse      (development) parses stdin as one file and reports error / round trip
 package main
 
 import (
@@ -73,6 +74,8 @@ func main() {
 		err = runSkeleton(in, w)
 	case "show":
 		err = runShow(in, w)
+	case "parse": // development: parse stdin as one file, print the round trip verdict
+		err = runParse(w)
 	default:
 		err = fmt.Errorf("unknown mode %s", os.Args[1])
 	}
